@@ -111,6 +111,14 @@ class PathSolver:
         uf = '@uf' in ss
         roots = {self.find(s) for s in ss if s != '@uf'}
         comp, uf2 = self.component(roots)
+        if uf2 and not uf:
+            # relaxation first: drop every assertion that mentions uninterpreted functions / non-BV theories; if the
+            # pure bit-vector part is already unsatisfiable with the query, so is the whole (sound), and the bit-blasting
+            # tactic decides that ~100x faster than the SMT core
+            bvonly = [f for f in comp if '@uf' not in symset(f)]
+            if bvonly:
+                r, m, why = self.solve(bvonly + [extra], False)
+                if r == z3.unsat: return r, None, ''
         return self.solve(comp + [extra], uf or uf2)
     def full_model(self, extra=None):
         """models of every component (for counterexample extraction)"""
